@@ -120,6 +120,27 @@ func (c *Ctx) registerFn() *ssa.Function {
 			cands = append(cands, f)
 		}
 	}
+	if len(cands) > 1 {
+		// a wrapper that delegates to the function doing the work (a locking wrapper, a thin
+		// adapter): the outermost one is the registration function, the others are its helpers
+		inner := map[*ssa.Function]bool{}
+		for _, a := range cands {
+			for _, b := range c.calleesWithin(a, 2) {
+				if b != a {
+					inner[b] = true
+				}
+			}
+		}
+		var outer []*ssa.Function
+		for _, a := range cands {
+			if !inner[a] {
+				outer = append(outer, a)
+			}
+		}
+		if len(outer) == 1 {
+			cands = outer
+		}
+	}
 	if len(cands) != 1 {
 		broken("anchor lost: expected exactly one registration function (method (*File)(string) string updating a map field of File), found %d", len(cands))
 	}
@@ -399,6 +420,7 @@ func ruleImportsWriters(c *Ctx) []Obligation {
 	}
 	// hint setters must not touch imports: covered above (any mapupdate on imports outside register/Anon shape is a violation)
 	c.hintSetterPaths(o)
+	c.anonPaths(o)
 	return o.list
 }
 
@@ -1611,6 +1633,68 @@ func (c *Ctx) hintSetterPaths(o *obs) {
 		t.require(key)
 		t.flush()
 	}
+}
+
+// anonPaths: Anon records the anonymous entry for every path it is given — one update of the import
+// table per element of the argument, keyed by that element, conditioned on nothing but the iteration
+// (a path that is skipped because of a hint or an earlier entry is an import the user asked for and
+// does not get).
+func (c *Ctx) anonPaths(o *obs) {
+	f := c.method("File", "Anon")
+	if f == nil {
+		o.undecided("(*jen.File).Anon", "anchor", token.NoPos, "anchor lost: Anon not found")
+		return
+	}
+	fn := fname(f)
+	imp := "recv." + c.ff("imports")
+	nameF, aliasF := c.ff("defname"), c.ff("defalias")
+	paths, trunc := c.Paths(f, PXConfig{MaxVisits: 4, MaxDepth: 3})
+	if trunc || len(paths) == 0 {
+		o.undecided(fn, "path enumeration", f.Pos(), "%d paths, truncated %v", len(paths), trunc)
+		return
+	}
+	t := newTally(o, fn, f.Pos())
+	key := "Anon records {\"_\", alias} for every path it is given, whatever hints or entries exist"
+	for _, p := range paths {
+		if p.End != "return" {
+			t.note(key, false, "path %s ends in %s", traceOf(p), p.End)
+			continue
+		}
+		var got []string
+		bad := ""
+		for _, e := range p.Events {
+			if e.Kind != "mapupdate" || e.Recv.String() != imp {
+				continue
+			}
+			v := e.Args[1]
+			if v.Op != "struct" || v.Fields[nameF] == nil || v.Fields[nameF].String() != `"_"` || v.Fields[aliasF] == nil || v.Fields[aliasF].String() != "true" {
+				bad = "stores " + v.String()
+			}
+			got = append(got, e.Args[0].String())
+		}
+		// the elements examined on this path: p0[0], p0[1], … as far as the facts say the list goes
+		n := 0
+		for k := 0; k < 4; k++ {
+			if p.Facts.Has(fmt.Sprintf("lt(%d,len(p0))", k), true) || (k == 0 && p.Facts.Has("empty(p0)", false)) {
+				n = k + 1
+			}
+		}
+		ok := bad == "" && len(got) == n
+		for i := 0; ok && i < n; i++ {
+			if got[i] != fmt.Sprintf("p0[%d]", i) {
+				ok = false
+			}
+		}
+		for atom := range p.Facts {
+			if !(strings.HasPrefix(atom, "lt(") && strings.HasSuffix(atom, ",len(p0))")) && atom != "empty(p0)" {
+				ok = false
+				bad += " conditioned on " + atom
+			}
+		}
+		t.note(key, ok, "path %s records %v for %d path(s) %s", traceOf(p), got, n, bad)
+	}
+	t.require(key)
+	t.flush()
 }
 
 // viaOnlyFromRegister: the function named via is a helper of the registration function (called by it,
